@@ -147,6 +147,98 @@ func TestVerifC13(t *testing.T) {
 		r.Eval("wrap:" + cls + fmt.Sprintf(",idlen=%d", len(id)))
 	})
 
+	// ---- call histories on REUSED buffers: the same id / key / message buffers are overwritten in place
+	//      between id-level calls (a server handling one request after another). Every call is compared
+	//      with the model for the contents the buffers hold at that moment.
+	for sess := 0; sess < hk.N(60, 600); sess++ {
+		lr := hk.NewRNG(hk.Seed(), caseID("c13h", sess))
+		idBuf := make([]byte, 64)
+		msgBuf := make([]byte, 128)
+		pxBuf, pyBuf := make([]byte, 32), make([]byte, 32)
+		idLen := lr.Pick([]int{0, 1, 16, 17, 32, 64})
+		msgLen := lr.Pick([]int{0, 5, 32, 100})
+		var keysD []*big.Int
+		for k := 0; k < 2; k++ {
+			keysD = append(keysD, randScalar(lr))
+		}
+		var hist []string
+		var prevR, prevS []byte
+		for step := 0; step < 7; step++ {
+			// mutate some of the buffers in place
+			switch lr.Intn(4) {
+			case 0:
+				lr.Fill(idBuf[:idLen])
+			case 1:
+				lr.Fill(msgBuf[:msgLen])
+			case 2:
+				if lr.Intn(2) == 0 {
+					idLen = lr.Pick([]int{0, 1, 16, 17, 32, 64})
+				}
+				lr.Fill(idBuf[:idLen])
+			default:
+				// keep everything
+			}
+			d := keysD[lr.Intn(len(keysD))]
+			if step == 0 || lr.Intn(3) == 0 {
+				P := refPub(d)
+				copy(pxBuf, ref.B32(P.X))
+				copy(pyBuf, ref.B32(P.Y))
+			} else {
+				// which key is in the buffers now?
+				for _, kd := range keysD {
+					if bytes.Equal(ref.B32(refPub(kd).X), pxBuf) {
+						d = kd
+					}
+				}
+			}
+			id, msg := idBuf[:idLen], msgBuf[:msgLen]
+			za, _ := ref.SM2ZA(id, pxBuf, pyBuf)
+			e := ref.SM2E(za, msg)
+			stream := lr.Bytes(32 * 4)
+			model := ref.SM2Sign(d, e, stream)
+			if model.R == nil {
+				continue
+			}
+			det := hk.D{"session": sess, "step": step, "history": hist, "id": hk.Hex(id), "msg": hk.Hex(msg), "px": hk.Hex(pxBuf), "priv": hk.Hex(ref.B32(d))}
+			switch op := lr.Intn(4); op {
+			case 0:
+				hist = append(hist, fmt.Sprintf("Sign(idlen=%d)", idLen))
+				rr, ss, err := Sign(id, pxBuf, pyBuf, newScript(stream), ref.B32(d), msg)
+				if err != nil || !bytes.Equal(rr, ref.B32(model.R)) || !bytes.Equal(ss, ref.B32(model.S)) {
+					det["got"] = hexOrNil(rr) + "," + hexOrNil(ss)
+					r.Violation("history:Sign-not-standard-on-reused-buffers", det)
+				}
+				prevR, prevS = ref.B32(model.R), ref.B32(model.S)
+			case 1:
+				hist = append(hist, fmt.Sprintf("Verify(idlen=%d)", idLen))
+				ok, _ := Verify(id, pxBuf, pyBuf, msg, ref.B32(model.R), ref.B32(model.S))
+				if !ok {
+					r.Violation("history:Verify-rejects-valid-on-reused-buffers", det)
+				}
+				prevR, prevS = ref.B32(model.R), ref.B32(model.S)
+			case 2:
+				// a signature made for the PREVIOUS contents must verify only if the model says so
+				if prevR == nil {
+					continue
+				}
+				hist = append(hist, fmt.Sprintf("Verify-previous-signature(idlen=%d)", idLen))
+				want := ref.SM2Verify(pxBuf, pyBuf, e, prevR, prevS)
+				ok, _ := Verify(id, pxBuf, pyBuf, msg, prevR, prevS)
+				if ok != want {
+					det["want"], det["got"] = want, ok
+					r.Violation("history:Verify-disagrees-with-model-on-reused-buffers", det)
+				}
+			default:
+				hist = append(hist, fmt.Sprintf("ZA(idlen=%d)", idLen))
+				got, err := ZA(id, pxBuf, pyBuf)
+				if err != nil || !bytes.Equal(got, za) {
+					r.Violation("history:ZA-wrong-on-reused-buffers", det)
+				}
+			}
+		}
+		r.Eval(fmt.Sprintf("history:idlen=%d,msglen=%d", idLen, msgLen))
+	}
+
 	// ---- interoperability: OpenSSL-produced signatures must verify; ZA must match
 	kats, err := ref.LoadSM2()
 	if err != nil {
